@@ -64,12 +64,13 @@ structure Encryptor where
 /-! ## payloads -/
 
 /-- the type parameter `T`: `[]byte`, `cbor.RawMessage`, or a typed value (modelled: `key.CoseMap`) -/
-inductive PMode | raw | rawMsg | typed
+inductive PMode | raw | rawMsg | typed | named
 deriving Repr, DecidableEq
 
 inductive PVal
   | bytes (b : Option Bytes)      -- []byte / RawMessage (nil possible)
   | typed (m : Option CMap)       -- CoseMap (nil possible)
+  | named (b : Option Bytes)      -- a named byte-slice type (key.ByteStr, `type Blob []byte`): a CBOR byte string inside the payload
 deriving Repr
 
 /-- what goes into the wire payload: raw bytes as they are, typed values through `key.MarshalCBOR` -/
@@ -79,6 +80,8 @@ def payloadToWire : PVal → Res (Option Bytes)
   | .typed (some m) => match encodeCMap m with
     | some b => .ok (some b)
     | none => .err "unencodable"
+  | .named none => .ok (some (encode Cbor.null))
+  | .named (some b) => .ok (some (encode (.bstr b)))
 
 /-- filling `m.Payload` from wire bytes: only when `len > 0` -/
 def payloadFromWire (mode : PMode) (b : Option Bytes) (zero : PVal) : Dec PVal :=
@@ -93,9 +96,16 @@ def payloadFromWire (mode : PMode) (b : Option Bytes) (zero : PVal) : Dec PVal :
       | .ok m => .ok (.typed (some m))
       | .err => .err
       | .unmodelled => .unmodelled
+    | .named => match (decodeAll d).map untag with
+      | some (.bstr b) => .ok (.named (some b))
+      | some (.simple 22) => .ok (.named none)
+      | some (.simple 23) => .ok (.named none)
+      | some (.arr _) => .unmodelled      -- fxamacker fills byte slices from arrays of small integers (known finding D12)
+      | _ => .err
 
 def zeroPayload : PMode → PVal
   | .typed => .typed none
+  | .named => .named none
   | _ => .bytes none
 
 /-! ## wire structures -/
